@@ -64,7 +64,10 @@ BrItems(p, k, first, items, dom) ==
   ELSE IF p[k] = RBR /\ ~first THEN [ok |-> TRUE, next |-> k + 1, items |-> items, dom |-> dom /\ items # <<>>]
   ELSE IF p[k] = LBR /\ k < Len(p) /\ p[k + 1] \in {COLON, 46, 61} THEN
        (IF p[k + 1] = COLON /\ ClassAt(p, k) # ""
-        THEN BrItems(p, k + Len(NameChars(ClassAt(p, k))) + 4, FALSE, Append(items, [t |-> "k", name |-> ClassAt(p, k)]), dom)
+        THEN LET nx == k + Len(NameChars(ClassAt(p, k))) + 4 IN
+             \* a class cannot be a range end point: "[[:alpha:]-z]" is undefined unless the '-' is the last member
+             BrItems(p, nx, FALSE, Append(items, [t |-> "k", name |-> ClassAt(p, k)]),
+                     dom /\ ~(nx + 1 <= Len(p) /\ p[nx] = DASH /\ p[nx + 1] # RBR))
         ELSE BrItems(p, k + 1, FALSE, Append(items, [t |-> "c", c |-> LBR]), FALSE))     \* [. [= or a malformed [: : not covered
   ELSE IF k + 2 <= Len(p) /\ p[k + 1] = DASH /\ p[k + 2] # RBR THEN
        BrItems(p, k + 3, FALSE, Append(items, [t |-> "r", lo |-> p[k], hi |-> p[k + 2]]),
